@@ -319,16 +319,12 @@ mutual
           | none => attrs
           | some items => applyPyAttrs env attrs items
         .start t (evalAttrs env attrib) :: (renderList env kids ++ [.end_ t])
-    | .loop e kids => renderLoop env (itemsOf (evalV env e)) kids
+    | .loop e kids => (itemsOf (evalV env e)).flatMap fun x => renderList (x :: env) kids
     | .bind a kids => renderList (evalAtom env a :: env) kids
     | .cond b kids => if b then renderList env kids else []
   def renderList (env : Env) : List Node → List Ev
     | [] => []
     | n :: ns => renderNode env n ++ renderList env ns
-  /-- one pass of the body per item, the item bound to the innermost variable -/
-  def renderLoop (env : Env) : List Scalar → List Node → List Ev
-    | [], _ => []
-    | x :: xs, kids => renderList (x :: env) kids ++ renderLoop env xs kids
 end
 
 /-! ### the domain the model answers for
@@ -360,15 +356,12 @@ mutual
     | .lit _ => true
     | .site e => siteOk env e
     | .el _ _ _ kids => listOk env kids
-    | .loop e kids => loopOk env (itemsOf (evalV env e)) kids
+    | .loop e kids => (itemsOf (evalV env e)).all fun x => listOk (x :: env) kids
     | .bind a kids => listOk (evalAtom env a :: env) kids
     | .cond b kids => if b then listOk env kids else true
   def listOk (env : Env) : List Node → Bool
     | [] => true
     | n :: ns => nodeOk env n && listOk env ns
-  def loopOk (env : Env) : List Scalar → List Node → Bool
-    | [], _ => true
-    | x :: xs, kids => listOk (x :: env) kids && loopOk env xs kids
 end
 
 end Genshi.Subst
